@@ -361,8 +361,6 @@ def check_batch(ctx, res, cases, bucket, full=True):
                 v_n = judge(n, gates, dict(gates=rep_n["gates"], num_qubits=n), full)
                 if v_n is not None:
                     res.disagree(case, "the repaired model violates the oracle: " + v_n[0], model=dict(gates=short(rep_n["gates"])))
-                if not quirks and not rep_q["validated"] and "error" not in rep_q:
-                    pass
             elif "error" not in out:
                 res.disagree(case, "the repaired model raises: " + rep_n["error"], code=c_code)
             # custom_simplify_logic2 against the model, given the logged simplify_logic table
@@ -377,7 +375,8 @@ def check_batch(ctx, res, cases, bucket, full=True):
                     res.disagree(case, "custom_simplify_logic2: model and code differ", code=str(r), model=str(rebuilt),
                                  expected=str(e))
         if verdict is None:
-            # the validator of the quirk model must agree with the oracle on a correct run
+            # (a run can be right as a whole although a splice is wrong: two dropped swaps around a gate
+            # that is symmetric in the two qubits cancel - so `validated` is not required here)
             continue
         what, expected = verdict
         attributed = None
